@@ -1,4 +1,5 @@
 import BindgenModel.Lemmas.BitfieldUnit
+import BindgenModel.Model.BitfieldAlloc
 /-!
 # C03 — bit-field getters, setters and constructors agree bit-for-bit with C
 
@@ -348,3 +349,146 @@ example : [(⟨0, 3⟩, 5#64), (⟨3, 9⟩, 0x1FF#64)].Pairwise
   simp [disjoint]
 
 end BindgenModel.BitfieldUnit
+
+/-! ## big-endian branches -/
+namespace BindgenModel.BitfieldUnit
+
+theorem reverse_reverse8 (b : Byte) : b.reverse.reverse = b := by
+  apply BitVec.eq_of_getLsbD_eq
+  intro i hi
+  simp only [BitVec.getLsbD_reverse, BitVec.getMsbD_eq_getLsbD]
+  have h1 : 8 - 1 - i < 8 := by omega
+  have h2 : 8 - 1 - (8 - 1 - i) = i := by omega
+  simp [hi, h1, h2]
+
+theorem bitAt_map_reverse (s : List Byte) (j : Nat) : bitAt (s.map BitVec.reverse) j = bitAtBE s j := by
+  unfold bitAt bitAtBE
+  have hr : j % 8 < 8 := Nat.mod_lt _ (by omega)
+  have e : (s.map BitVec.reverse).getD (j / 8) 0 = (s.getD (j / 8) 0).reverse := by
+    simp only [List.getD_eq_getElem?_getD, List.getElem?_map]
+    cases s[j / 8]? with
+    | none => decide
+    | some b => rfl
+  rw [e, BitVec.getLsbD_reverse, BitVec.getMsbD_eq_getLsbD]
+  have : 8 - 1 - j % 8 = 7 - j % 8 := by omega
+  simp [hr, this]
+
+/-- **C03 (get, big endian).** bit `i` of the value is storage bit `off + (w-1-i)`. -/
+theorem C03_getBE_bit (s : List Byte) (off w i : Nat) (hw : w ≤ 64) (hfit : Fits off w) (hi : i < 64) :
+    (getBE s off w).getLsbD i = (decide (i < w) && bitAtBE s (off + (w - 1 - i))) := by
+  unfold getBE
+  split
+  · rename_i h; subst h; simp
+  · rename_i hw0
+    rw [BitVec.getLsbD_ushiftRight, BitVec.getLsbD_reverse, BitVec.getMsbD_eq_getLsbD]
+    by_cases hiw : i < w
+    · have h1 : 64 - w + i < 64 := by omega
+      have h2 : 64 - 1 - (64 - w + i) = w - 1 - i := by omega
+      rw [h2, C03_get_bit _ off w (w - 1 - i) hfit (by omega), bitAt_map_reverse]
+      have : w - 1 - i < w := by omega
+      simp [hiw, h1, this]
+    · have h1 : ¬ (64 - w + i < 64) := by omega
+      simp [hiw, h1]
+
+theorem map_reverse_length (s : List Byte) : (s.map BitVec.reverse).length = s.length := by simp
+
+/-- **C03 (set, big endian).** exactly the field's bits are written, most significant first. -/
+theorem C03_setBE_bit (s : List Byte) (off w : Nat) (v : BitVec 64) (hw : w ≤ 64) (hfit : Fits off w)
+    (hin : (off + w + 7) / 8 ≤ s.length) (j : Nat) :
+    bitAtBE (setBE s off w v) j =
+      if off ≤ j ∧ j < off + w then v.getLsbD (w - 1 - (j - off)) else bitAtBE s j := by
+  unfold setBE
+  split
+  · rename_i h; subst h
+    have : ¬ (off ≤ j ∧ j < off + 0) := by omega
+    rw [if_neg this]
+  · rename_i hw0
+    rw [← bitAt_map_reverse]
+    have hmm : ∀ l : List Byte, (l.map BitVec.reverse).map BitVec.reverse = l := by
+      intro l; simp [List.map_map, Function.comp_def, reverse_reverse8]
+    rw [hmm]
+    rw [(C03_set_eq_spec (s.map BitVec.reverse) off w _ hfit (by simpa using hin)).2 j]
+    unfold specSetBit
+    split
+    · rename_i hj
+      rw [BitVec.getLsbD_ushiftRight, BitVec.getLsbD_reverse, BitVec.getMsbD_eq_getLsbD,
+        BitVec.getLsbD_and]
+      have h1 : 64 - w + (j - off) < 64 := by omega
+      have h2 : 64 - 1 - (64 - w + (j - off)) = w - 1 - (j - off) := by omega
+      have h3 : w - 1 - (j - off) < 64 := by omega
+      have h4 : w - 1 - (j - off) < w := by omega
+      rw [h2, lowMask_bit 64 w _ h3]
+      simp [h1, h4]
+    · exact bitAt_map_reverse s j
+
+end BindgenModel.BitfieldUnit
+
+/-! ## allocation units: `offset_into_unit` against clang's offsets -/
+namespace BindgenModel.BitfieldAlloc
+
+/-- invariant of the allocation fold (clang offsets known) -/
+theorem foldl_offs (packed : Bool) (bfs : List RawBf) (s : St) (first : Nat) (offOf : RawBf → Nat)
+    (hoff : ∀ b ∈ bfs, b.off = some (offOf b))
+    (hs : s.unitBits ≠ 0 → s.start = first)
+    (hfirst : s.unitBits = 0 → ∀ b, bfs.head? = some b → offOf b = first)
+    (hw : ∀ b ∈ bfs, 0 < b.width) (hge : ∀ b ∈ bfs, first ≤ offOf b)
+    (hadj : ∀ b ∈ bfs, adjusts packed b = false) :
+    (bfs.foldl (stepBf packed) s).offs = s.offs ++ bfs.map (fun b => offOf b - first) := by
+  induction bfs generalizing s with
+  | nil => simp
+  | cons b bs ih =>
+    simp only [List.foldl_cons, List.map_cons]
+    have hob := hoff b (by simp)
+    have hb : adjustsAt packed b (offOf b) = false := by
+      have := hadj b (by simp); simpa [adjusts, hob] using this
+    have hwb := hw b (by simp)
+    have hstart : (if s.unitBits = 0 then offOf b else s.start) = first := by
+      split
+      · rename_i h0; exact hfirst h0 b rfl
+      · rename_i h0; exact hs h0
+    have hstep : stepBf packed s b =
+        { start := first, unitBits := offOf b - first + b.width, offs := s.offs ++ [offOf b - first] } := by
+      simp only [stepBf, effOff, hob, Option.getD_some, hb, hstart]; simp
+    rw [hstep]
+    rw [ih]
+    · simp
+    · intro x hx; exact hoff x (by simp [hx])
+    · intro _; rfl
+    · intro h0; simp only at h0; omega
+    · intro x hx; exact hw x (by simp [hx])
+    · intro x hx; exact hge x (by simp [hx])
+    · intro x hx; exact hadj x (by simp [hx])
+
+/-- **C03 (allocation, partial).** In a run of non-empty bit-fields whose clang offsets are known
+and non-decreasing and where the code never re-aligns a field itself, every bit-field sits at
+`start_of_unit + offset_into_unit = clang's offset`. -/
+theorem C03_alloc_offsets_match_clang_partial (packed : Bool) (b0 : RawBf) (bs : List RawBf)
+    (offOf : RawBf → Nat) (hoff : ∀ b ∈ b0 :: bs, b.off = some (offOf b))
+    (hw : ∀ b ∈ b0 :: bs, 0 < b.width) (hge : ∀ b ∈ b0 :: bs, offOf b0 ≤ offOf b)
+    (hadj : ∀ b ∈ b0 :: bs, adjusts packed b = false) :
+    (allocRun packed (b0 :: bs)).offs = (b0 :: bs).map (fun b => offOf b - offOf b0) ∧
+    ∀ b ∈ b0 :: bs, offOf b0 + (offOf b - offOf b0) = offOf b := by
+  refine ⟨?_, fun b hb => by have := hge b hb; omega⟩
+  unfold allocRun
+  have := foldl_offs packed (b0 :: bs) {} (offOf b0) offOf hoff (by intro h; exact absurd rfl h)
+    (by intro _ b hb; simp at hb; rw [← hb]) hw hge hadj
+  simpa using this
+
+/-- **Negation (region `bf_offset_overridden`).** `#pragma pack(8)`, `unsigned long long b1:1` at
+bit 16 followed by `unsigned long b2:64`, which clang puts at bit 17: the code moves it to bit 64. -/
+theorem C03_fails_on_offset_overridden :
+    (allocRun false [⟨1, some 16, 8, 8, true⟩, ⟨64, some 17, 8, 8, true⟩]).offs = [0, 48] ∧
+    16 + 48 ≠ 17 := by decide
+
+/-- inside a class template (no clang offsets) the code lays the run out itself, Itanium style:
+`unsigned lo:20, mid:12, hi:4` share one 32-bit storage unit and `hi` starts the next -/
+theorem C03_alloc_template_example :
+    (allocRun false [⟨20, none, 4, 4, true⟩, ⟨12, none, 4, 4, true⟩, ⟨4, none, 4, 4, true⟩]).offs
+      = [0, 20, 32] := by decide
+
+/-- the region predicate of known finding `bf_offset_overridden` (per run of bit-fields) -/
+def regionOffsetOverridden (packed : Bool) (bfs : List RawBf) : Bool := bfs.any (adjusts packed)
+
+example : adjusts false ⟨3, some 5, 4, 4, true⟩ = false ∧ adjusts false ⟨64, some 17, 8, 8, true⟩ = true := by decide
+
+end BindgenModel.BitfieldAlloc
